@@ -96,7 +96,9 @@ def walk(cx, root, path, e, exp):
         for i, a in enumerate(e["arms"]):
             walk(cx, root, path + ["arms", i, "b"], a["b"], exp)
             if a["p"]["k"] in ("pint", "pbool", "pstr"):
-                cx.others.append((root, path + ["arms", i, "p"], "pattern-type"))
+                for alt in ("pint", "pbool", "pstr", "punit"):
+                    if alt != a["p"]["k"]:
+                        cx.others.append((root, path + ["arms", i, "p"], "pattern-" + alt[1:] + "-for-" + a["p"]["k"][1:]))
     elif k == "block":
         for i, st in enumerate(e["stmts"]):
             if st["k"] == "let":
@@ -230,9 +232,10 @@ def apply(prog, mutation):
             node["es"] = node["es"] + [copy.deepcopy(node["es"][-1])]
         elif kind == "payload-dropped":
             node["as"] = node["as"][:-1]
-        elif kind == "pattern-type":
+        elif kind.startswith("pattern-"):
             parent = get(body, path[:-1])
-            parent[path[-1]] = PStr("q") if node["k"] != "pstr" else PBool(True)
+            alt = kind.split("-")[1]
+            parent[path[-1]] = {"int": PInt(7), "bool": PBool(True), "str": PStr("q"), "unit": PUnit}[alt]
         else:
             return None
     if root[0] == "fn":
